@@ -1,10 +1,18 @@
-// Uninterpreted functions by Ackermann's reduction (DESIGN.md 2.3).
+// Uninterpreted functions by Ackermann's reduction (DESIGN.md 2.3 / 10.2).
 //
 // Under Kani, `call(x)` returns a fresh symbolic value constrained to agree with every earlier call on equal
 // arguments; the (argument, result) log lives in `static mut` scalar arrays.  Each table must stay <= 64 entries
 // (CBMC's field-sensitivity limit; larger arrays fall into the array theory and the query explodes), so bigger
 // logs are declared with several banks.  Capacity overflow is a proof obligation ("VERIF_UF_CAPACITY").
 // Natively (replay), `call` is the concrete function.
+//
+// Encoding notes (each one measured):
+//  * ONE kani::assume per call (the conjunction of all consistency constraints): CBMC re-encodes the conjunction of all
+//    earlier assumptions for every later VCC, so one assume per table entry gave 10^8 clauses.
+//  * every bank is copied into a LOCAL array once per call and the comparison loop runs over the local: each access to a
+//    `static mut` goes through a raw pointer and carries pointer-validity obligations, which dominated the program size.
+//  * the number of calls must be concrete during symbolic execution (no data-dependent number of calls, no symbolic
+//    block counts around stubbed code), else the counter N and with it every table index becomes symbolic.
 //
 // Soundness: a property proved with leaf := arbitrary function u on BOTH sides holds for the concrete leaf too.
 // A counterexample under u may be spurious -> it is replayed natively with the concrete leaf before reporting.
@@ -36,10 +44,14 @@ macro_rules! uf1 {
                     let mut ok = true;
                     $(
                         {
-                            let mut k = 0;
-                            while k < 64 && base + k < n {
-                                ok &= ($bank::IN[k] != x) | (y == $bank::OUT[k]);
-                                k += 1;
+                            if base < n {
+                                let ins: [$A; 64] = $bank::IN;
+                                let outs: [$B; 64] = $bank::OUT;
+                                let mut k = 0;
+                                while k < 64 && base + k < n {
+                                    ok &= (ins[k] != x) | (y == outs[k]);
+                                    k += 1;
+                                }
                             }
                             if !stored && n >= base && n < base + 64 {
                                 $bank::IN[n - base] = x;
@@ -90,10 +102,12 @@ macro_rules! uf2 {
                     let mut ok = true;
                     $(
                         {
-                            let mut k = 0;
-                            while k < 64 && base + k < n {
-                                ok &= ($bank::IN0[k] != x0) | ($bank::IN1[k] != x1) | (y == $bank::OUT[k]);
-                                k += 1;
+                            if base < n {
+                                let mut k = 0;
+                                while k < 64 && base + k < n {
+                                    ok &= ($bank::IN0[k] != x0) | ($bank::IN1[k] != x1) | (y == $bank::OUT[k]);
+                                    k += 1;
+                                }
                             }
                             if !stored && n >= base && n < base + 64 {
                                 $bank::IN0[n - base] = x0;
@@ -145,10 +159,14 @@ macro_rules! uf_bij {
                     let mut ok = true;
                     $(
                         {
-                            let mut k = 0;
-                            while k < 64 && base + k < n {
-                                ok &= ($bank::A[k] == a) == ($bank::B[k] == b);
-                                k += 1;
+                            if base < n {
+                                let aa: [$A; 64] = $bank::A;
+                                let bb: [$A; 64] = $bank::B;
+                                let mut k = 0;
+                                while k < 64 && base + k < n {
+                                    ok &= (aa[k] == a) == (bb[k] == b);
+                                    k += 1;
+                                }
                             }
                             if !stored && n >= base && n < base + 64 {
                                 $bank::A[n - base] = a;
